@@ -33,6 +33,7 @@ T9 = {
     "core/Macros.cpp": ["macros_expand_params"],
     "core/tokens.cpp": ["tokens_get", "tokens_unget_char"],
     "main/naken_asm.cpp": ["main", "output_hex_text"],
+    "main/naken_util.cpp": ["main"],
     "core/tokens.h": ["tokens_get", "tokens_unget_char"],
     "fileio/read_hex.cpp": ["get_hex", "read_hex"],
     "fileio/read_hex.h": ["read_hex"],
@@ -47,8 +48,9 @@ T9 = {
     "fileio/read_uf2.cpp": ["read_uf2", "read_block"],
     "fileio/read_uf2.h": ["read_uf2"],
     "fileio/read_elf.cpp": ["read_elf"],
-    "disasm/tms9900.cpp": ["list_output_tms9900"],
-    "disasm/tms9900.h": ["list_output_tms9900"],
+    "disasm/tms9900.cpp": ["list_output_tms9900", "disasm_range_tms9900"],
+    "disasm/msp430.cpp": ["list_output_msp430_both"],
+    "disasm/tms9900.h": ["list_output_tms9900", "disasm_range_tms9900"],
     "fileio/read_amiga.cpp": ["read_amiga", "read_hunk_header", "read_code", "read_int32"],
     "fileio/read_amiga.h": ["read_amiga"],
     "fileio/read_macho.cpp": ["read_macho"],
@@ -178,6 +180,8 @@ EXTRACT = [
     ("core/AsmContext.cpp", r"^void AsmContext::set_cpu\(int index\)\s*\{", "AsmContext_set_cpu.inc"),
     ("asm/mips.cpp", r"^int link_function_mips\(", "link_function_mips.inc"),
     ("disasm/tms9900.cpp", r"^(?:extern \"C\" )?void list_output_tms9900\(", "list_output_tms9900.inc"),
+    ("disasm/msp430.cpp", r"^(?:extern \"C\" |static )?void list_output_msp430_both\(", "list_output_msp430_both.inc"),
+    ("disasm/tms9900.cpp", r"^(?:extern \"C\" )?void disasm_range_tms9900\(", "disasm_range_tms9900.inc"),
     ("core/AsmContext.cpp", r"^int AsmContext::link\(\)", "AsmContext_link.inc"),
     ("core/Linker.cpp", r"^uint8_t \*Linker::get_code_from_symbol\(", "Linker_get_code_from_symbol.inc"),
     ("core/UtilContext.cpp", r"^void UtilContext::print8\(const char \*token\)", "UtilContext_print8.inc"),
